@@ -2903,8 +2903,9 @@ class PlateSlicer(Slicer):
             different = False
             to.plate = frm.plate = deepcopy(to.plate)
 
-        if frm.size == 1:
+        if frm.size == 1 and frm.shape == (1, 1):
             # Source from the single element in frm
+            # (a one-element list has shape (1,): it pairs element-wise with another one, like any list)
             if frm.shape != (1, 1):
                 raise RuntimeError("Shape of source should have been (1, 1)")
 
@@ -2923,7 +2924,7 @@ class PlateSlicer(Slicer):
             frm_array = frm.get()
             to.apply(helper_func)
 
-        elif to.size == 1:
+        elif to.size == 1 and to.shape == (1, 1):
             #  Replace the single element in self
             if to.shape != (1, 1):
                 raise RuntimeError("Shape of source should have been (1, 1)")
